@@ -251,3 +251,54 @@ package h2
 //@   requires p != nil && p.promiseID == pendPromise
 //@   modifies pcN, pcKind, pcSelf, pcPromise, pcHeaders
 //@   ensures[continued-push-promise-keeps-promised-id] pcN == old(pcN) + 1 && pcSelf == s && pcHeaders == headers && pcKind == 5 && pcPromise == pendPromise
+
+// The continuation object stored in the relay agrees with the ghost record of the pending header block.
+//@ pred contInv(r *relay) =
+//@    (typeis(r.continuationState, *headerContinuation) ==> as(r.continuationState, *headerContinuation) != nil &&
+//@         as(r.continuationState, *headerContinuation).endStream == pendEnd && as(r.continuationState, *headerContinuation).priority == pendPrio) &&
+//@    (typeis(r.continuationState, *pushPromiseContinuation) ==> as(r.continuationState, *pushPromiseContinuation) != nil &&
+//@         as(r.continuationState, *pushPromiseContinuation).promiseID == pendPromise)
+
+//@ pred relayReady(r *relay) = r != nil && r.dest != nil && !r.destMu.held && !r.flowMu.held && bufsOK(r) && within(r, 1099511627776)
+
+// processFrame: per frame type, exactly the processor call the frame stands for, with equal arguments.
+// (No frame clause: the callees' effects on flow-control state are specified on those callees.)
+//@ func (*relay).processFrame
+//@   serves C08
+//@   requires r != nil && r.peer != nil && relayReady(r) && relayReady(r.peer) && contInv(r) && ref(f) != nil
+//@   ensures[continuation-record-consistent] contInv(r)
+//@   ensures[data-dispatch] typeis(f, *http2.DataFrame) && result == nil ==> pcN == old(pcN) + 1 && pcKind == 1 &&
+//@        pcSelf == procOf(r, as(f, *http2.DataFrame).StreamID) && pcData == as(f, *http2.DataFrame).Data() && pcEnd == as(f, *http2.DataFrame).StreamEnded()
+//@   ensures[headers-dispatch] typeis(f, *http2.HeadersFrame) && as(f, *http2.HeadersFrame).HeadersEnded() && result == nil ==> pcN == old(pcN) + 1 && pcKind == 2 &&
+//@        pcSelf == procOf(r, as(f, *http2.HeadersFrame).StreamID) && pcHeaders == lastDecoded &&
+//@        pcEnd == as(f, *http2.HeadersFrame).StreamEnded() && pcPrio == as(f, *http2.HeadersFrame).Priority
+//@   ensures[headers-continued-later] typeis(f, *http2.HeadersFrame) && !as(f, *http2.HeadersFrame).HeadersEnded() ==> pcN == old(pcN) &&
+//@        typeis(r.continuationState, *headerContinuation) && pendEnd == as(f, *http2.HeadersFrame).StreamEnded() && pendPrio == as(f, *http2.HeadersFrame).Priority
+//@   ensures[continuation-completes-with-pending-flags] typeis(f, *http2.ContinuationFrame) && as(f, *http2.ContinuationFrame).HeadersEnded() && result == nil &&
+//@        typeis(old(r.continuationState), *headerContinuation) ==> pcN == old(pcN) + 1 && pcKind == 2 &&
+//@        pcSelf == procOf(r, as(f, *http2.ContinuationFrame).StreamID) && pcHeaders == lastDecoded && pcEnd == old(pendEnd) && pcPrio == old(pendPrio)
+//@   ensures[continuation-completes-push-promise] typeis(f, *http2.ContinuationFrame) && as(f, *http2.ContinuationFrame).HeadersEnded() && result == nil &&
+//@        typeis(old(r.continuationState), *pushPromiseContinuation) ==> pcN == old(pcN) + 1 && pcKind == 5 && pcPromise == old(pendPromise) && pcHeaders == lastDecoded
+//@   ensures[continuation-buffers-only] typeis(f, *http2.ContinuationFrame) && !as(f, *http2.ContinuationFrame).HeadersEnded() ==> pcN == old(pcN)
+//@   ensures[priority-dispatch] typeis(f, *http2.PriorityFrame) && result == nil ==> pcN == old(pcN) + 1 && pcKind == 3 &&
+//@        pcSelf == procOf(r, as(f, *http2.PriorityFrame).StreamID) && pcPrio == as(f, *http2.PriorityFrame).PriorityParam
+//@   ensures[rst-dispatch] typeis(f, *http2.RSTStreamFrame) && result == nil ==> pcN == old(pcN) + 1 && pcKind == 4 &&
+//@        pcSelf == procOf(r, as(f, *http2.RSTStreamFrame).StreamID) && pcCode == as(f, *http2.RSTStreamFrame).ErrCode
+//@   ensures[push-promise-dispatch] typeis(f, *http2.PushPromiseFrame) && as(f, *http2.PushPromiseFrame).HeadersEnded() && result == nil ==> pcN == old(pcN) + 1 && pcKind == 5 &&
+//@        pcSelf == procOf(r, as(f, *http2.PushPromiseFrame).StreamID) && pcPromise == as(f, *http2.PushPromiseFrame).PromiseID && pcHeaders == lastDecoded
+//@   ensures[push-promise-continued-later] typeis(f, *http2.PushPromiseFrame) && !as(f, *http2.PushPromiseFrame).HeadersEnded() ==> pcN == old(pcN) &&
+//@        typeis(r.continuationState, *pushPromiseContinuation) && pendPromise == as(f, *http2.PushPromiseFrame).PromiseID
+//@   ensures[window-update-consumed] typeis(f, *http2.WindowUpdateFrame) ==> pcN == old(pcN) && result == nil
+//@   ensures[connection-frames-make-no-stream-call] (typeis(f, *http2.SettingsFrame) || typeis(f, *http2.PingFrame) || typeis(f, *http2.GoAwayFrame)) ==> pcN == old(pcN)
+//@   ensures[unknown-frame-is-an-error] !typeis(f, *http2.DataFrame) && !typeis(f, *http2.HeadersFrame) && !typeis(f, *http2.PriorityFrame) && !typeis(f, *http2.RSTStreamFrame) &&
+//@        !typeis(f, *http2.SettingsFrame) && !typeis(f, *http2.PushPromiseFrame) && !typeis(f, *http2.PingFrame) && !typeis(f, *http2.GoAwayFrame) &&
+//@        !typeis(f, *http2.WindowUpdateFrame) && !typeis(f, *http2.ContinuationFrame) ==> result != nil && pcN == old(pcN)
+//@   at call 0 of Reset after set pendEnd = f.StreamEnded()
+//@   at call 0 of Reset after set pendPrio = f.Priority
+//@   at call 1 of Reset after set pendPromise = f.PromiseID
+
+//@ func (*relay).updateTableSize
+//@   serves C08
+//@   requires r != nil && !r.decoderMu.held && !r.encoderMu.held && r.decoder != nil && r.encoder != nil
+//@   modifies r.decoderMu.held, r.encoderMu.held
+//@   ensures[locks-released] !r.decoderMu.held && !r.encoderMu.held
